@@ -112,6 +112,9 @@ func ZZ_C10_IngressLines() {
 	svcPorts := []corev1.ServicePort{sp1}
 	if vf_Choose("svc.two", 2) == 1 {
 		sp2 := corev1.ServicePort{Name: "adm", Port: zzPortVar("svc.p2"), TargetPort: intstr.FromInt32(9090)}
+		if vf_Choose("svc.tp2", 2) == 1 { // no targetPort: the service port number is the access port
+			sp2.TargetPort = intstr.IntOrString{}
+		}
 		vf_Assume(sp2.Port != sp1.Port)
 		svcPorts = append(svcPorts, sp2)
 	}
